@@ -49,6 +49,7 @@ def run(ctx):
     rule_once(ctx, F)
     rule_recv(ctx, F)
     rule_hint(ctx, F)
+    rule_idle(ctx, F)
     import c02
     c02.rule_shim(ctx, F)   # the length prefix written on a stream is kept current by StreamTarget (shared with C02)
 
@@ -474,3 +475,40 @@ def rule_hint(ctx, F):
            "UdpTransportContext::clone gives the copy a hint of its own: the size the EDNS middleware negotiates for the copy it "
            "was handed never reaches the middleware that truncates, which still sees the server's limit -- a client that "
            "advertised 700 octets gets 850", b.where())
+
+
+def rule_idle(ctx, F):
+    """The idle timeout of a stream connection (RFC 7766 6.2.3) must not close a connection on which a request is still being
+    processed: the condition in process_dns_idle_timeout reads a shared flag / counter for that -- which somebody has to
+    *write* when a request is handed to the service.  A guard that is only ever read is no guard."""
+    R = "C16.idle"
+    ctx.floor(R, 1)
+    b = _one(F, r"^net::server::connection::Connection::<.*>::process_dns_idle_timeout$")
+    if not ctx.anchor(R, "Connection::process_dns_idle_timeout", b):
+        return
+    loads = []
+    for bb, tt in b.calls():
+        if re.search(r"atomic::Atomic(\w+|::<\w+>)::load$", tt["fn"] or ""):
+            tm = deep_strip(b.term_of_operand(tt["args"][0]))
+            flds = [s[2] for s in walk(tm) if s[0] == "field" and isinstance(s[2], str)]
+            if flds:
+                loads.append(flds[-1] if flds[-1] not in ("0",) else flds[0])
+    if not ctx.anchor(R, "the outstanding-request guard read by the idle timeout", len(loads) >= 1, b.where()):
+        return
+    for fld in sorted(set(loads)):
+        writers = []
+        for p, wb in F.bodies.items():
+            if not re.match(r"^<?net::server::connection::", p) or "::test" in p:
+                continue
+            for bb, tt in wb.calls():
+                if re.search(r"atomic::Atomic(\w+|::<\w+>)::(store|fetch_add|fetch_or|swap|fetch_sub|compare_exchange)$", tt["fn"] or ""):
+                    s = show(deep_strip(wb.term_of_operand(tt["args"][0])))
+                    nm = set(x for x in re.findall(r"[A-Za-z_][A-Za-z0-9_]*", s))
+                    # the same Arc travels under the field's name or a local cloned from it
+                    names = {wb.var_name(x[1]) for x in walk(wb.term_of_operand(tt["args"][0])) if x[0] in ("local",)} | nm
+                    if fld in names or any(fld in (n or "") for n in names):
+                        writers.append(p)
+        ctx.ob(R, b, "the flag `%s` that holds the idle timeout back is set somewhere" % fld, bool(writers),
+               "process_dns_idle_timeout lets the timeout pass only while `%s` is set, but nothing in net::server::connection ever "
+               "writes it: the connection is closed (without flushing) while a request is still being processed -- with "
+               "idle_timeout 300 ms a response that takes 800 ms is never sent" % fld, b.where())
